@@ -89,6 +89,17 @@ CHECKS = {
              "region-filling children, no include=True/require=False terminators, no nullable child under explicit padding, Optional only "
              "over children that do not accept None); RawCopy offsets are not compared across re-encoding",
         design="§3 C02"),
+    "C05": dict(
+        technique="bounded-exhaustive enumeration of typed terms and of (context-parameter class x key spelling x embedding x context) combinations; measured stream advance of the real build/parse as oracle",
+        text="sizeof() is called on every term of tiers T1-T4 (T5 thorough, sized and unsized) and on every combination of 30 classes that "
+             "take a context parameter x 22 ways of spelling/embedding the key reference (this.k, lambda, this._.k, _params, sibling, "
+             "_root, two levels, under Array/Prefixed/IfThenElse/Switch/Aligned/Renamed/Sequence/FocusedSeq) x contexts that supply every "
+             "alphabet value or omit the key. It must return a non-negative int or raise SizeofError (never KeyError/AttributeError); "
+             "whenever it returns n, build_stream of every buildable domain value (from start offsets 0 and 3) and parse_stream of "
+             "those bytes followed by each of three trailers must advance by exactly n; results are cross-checked against the reference.",
+        note="read-to-EOF transforms outside a delimiter are measured with an empty trailer only (exempt by the property); negative "
+             "lengths and modulus < 2 are not in the alphabet; Pointer (seeking) is not embedded under delimiters",
+        design="§3 C05"),
 }
 
 PENDING_REASON = "check not built yet in this round (see DESIGN.md §7 build order); it will be decided by the same bounded-exhaustive engine"
